@@ -317,6 +317,14 @@ def check(ctx: Ctx) -> None:
     ctx.guard("R4.int", ENC, int_table, ctx, h, thorough)
     ctx.guard("R4.float", ENC, float_table, ctx, h, thorough)
     ctx.guard("R4.tab", ENC, struct_table, ctx)
+    # decoding is a function of the bits: nothing reachable from the numeric decoders (incl. the value constructor) writes to an
+    # encoding, a class or a module-level object (no interning, no memo tables: 0.0 / -0.0, 1 / 1.0 / True are distinguishable)
+    from ..callgraph import CallGraph
+    from .c11 import effect_rule
+    roots = [k for k in (f"{ENC}::NumericDataEncoding.parse_value", f"{ENC}::IntegerDataEncoding._get_raw_value",
+                         f"{ENC}::FloatDataEncoding._get_raw_value") if ctx.prog.func_opt(k) is not None] or \
+            [f"{ENC}::NumericDataEncoding.parse_value"]
+    ctx.guard("R4.pure", ENC, effect_rule, ctx, CallGraph(ctx.prog), roots, "R4.pure", "numeric decoding")
 
 
 def mutants(prog):
@@ -350,7 +358,7 @@ SPEC = PropSpec(
     pid="C04",
     title="Integer and float fields decode correctly at every size, offset and byte order",
     check=check,
-    floors={"R4.int": 6, "R4.float": 14, "R4.tab": 4, "R4.xml": 9, "R4.cls": 12},
+    floors={"R4.int": 6, "R4.float": 14, "R4.tab": 4, "R4.xml": 9, "R4.cls": 12, "R4.pure": 3},
     fallback={"R4.tab": ("R4.float",)},
     explanation=("Decision tables by abstract interpretation of the numeric decoders against the checker's reference: "
                  "integers for 18 widths (thorough: every width 1..65 plus 72/96/128) x three encodings x both byte "
